@@ -5,12 +5,14 @@ import (
 	"math/big"
 
 	ethcmn "github.com/ethereum/go-ethereum/common"
+	ethtypes "github.com/ethereum/go-ethereum/core/types"
 	"pgregory.net/rapid"
 
 	agov "github.com/Oneledger/protocol/action/governance"
 	"github.com/Oneledger/protocol/data/balance"
 	"github.com/Oneledger/protocol/data/governance"
 	"github.com/Oneledger/protocol/data/keys"
+	"github.com/Oneledger/protocol/vm"
 
 	"verif/sim"
 	"verif/txgen"
@@ -1174,6 +1176,21 @@ func (g *Gen) OLVM() txgen.Tx {
 			a.Fee.Gas = int64(rapid.SampledFrom([]int{300000, 100000, 30000, 22000}).Draw(g.T, "gas"))
 			tags = append(tags, "olvm-call")
 		}
+	}
+	// an access list in the payload raises the intrinsic gas the VM demands (the mempool check computes it
+	// without the list): gas limits between the two values fail after the gas was bought
+	if g.pct(20, "access") {
+		al := ethtypes.AccessList{{Address: ethcmn.BytesToAddress([]byte{0xaa}), StorageKeys: []ethcmn.Hash{{1}}}}
+		extra := int64(2400 + 1900)
+		if g.Uniform(2, "access2") == 0 {
+			al = append(al, ethtypes.AccessTuple{Address: ethcmn.BytesToAddress([]byte{0xbb})})
+			extra += 2400
+		}
+		a.Access = &al
+		if base, err := vm.IntrinsicGas(a.Data, nil, a.To == nil); err == nil {
+			a.Fee.Gas = int64(base) + []int64{0, 0, extra - 1, extra, extra + 30000, 2400}[g.Uniform(6, "accessgas")]
+		}
+		tags = append(tags, "olvm-access-list")
 	}
 	if g.pct(g.Strange, "chain") {
 		a.SignChain = big.NewInt(1)
